@@ -3,6 +3,7 @@
 -/
 import Tsg.Proofs.Prog
 import Tsg.Sem.Lazy
+import Tsg.Proofs.LazyForcing
 
 namespace C20
 
@@ -178,5 +179,212 @@ theorem C20_lost_full_match_is_bare {ρ : Type} (env : Env) (h : env.mat.nodes f
 /-- a conflict found during lazy evaluation names both statements -/
 theorem C20_conflict_names_both (p dbg : StmtCtx) :
     Lazy.conflictFail (some p) dbg = .err (.inCtx (.stmt [p, dbg]) (.base .duplicateAttribute "")) := rfl
+
+/-! ### lazy execution: every error is the cancellation error or cites a statement -/
+
+theorem onlyContexted_poll {ρ : Type} (l : String) : OnlyContexted (Prog.pollP l : Prog ρ Unit) := by
+  intro s s' e h
+  simp only [Prog.pollP, Prog.run] at h
+  split at h
+  · split at h
+    · cases h; trivial
+    · cases h
+  · cases h
+
+theorem onlyContexted_getR {ρ : Type} : OnlyContexted (Prog.getR : Prog ρ ρ) := by
+  intro s s' e h; simp [Prog.getR, Prog.primP, Prog.run] at h
+
+/-- **Lazy blocks.** Every error raised while executing the statements of a stanza body or of a scan arm lazily is
+the cancellation error or carries a statement context (`if`/`for` bodies are not wrapped again: they are inside
+the statement that contains them). -/
+theorem C20_lazy_block_errors_contexted (cfg : Cfg) (fuel ef : Nat) (kind : Lazy.LBlockKind) (hk : kind ≠ .bare)
+    (ss : List Stmt) (env : Env) : OnlyContexted (Lazy.lazyBlock cfg fuel ef env kind ss) := by
+  induction ss generalizing env with
+  | nil => unfold Lazy.lazyBlock; exact onlyContexted_pure ()
+  | cons st rest ih =>
+    unfold Lazy.lazyBlock
+    cases kind with
+    | top =>
+      dsimp only
+      exact onlyContexted_bind _ _ (onlyContexted_withContext _ _) fun _ => ih _
+    | scanArm what =>
+      dsimp only
+      exact onlyContexted_bind _ _ (onlyContexted_withContext _ _) fun _ => ih _
+    | bare => exact absurd rfl hk
+
+theorem onlyContexted_execMergedL (cfg : Cfg) (fuel ef : Nat) (stanzas : List Stanza) (ms : List QMatch)
+    (hfull : ∀ m ∈ ms, m.nodes fullMatchName ≠ []) : OnlyContexted (Lazy.execMergedL cfg fuel ef stanzas ms) := by
+  induction ms with
+  | nil => unfold Lazy.execMergedL; exact onlyContexted_pure ()
+  | cons m rest ih =>
+    unfold Lazy.execMergedL
+    refine onlyContexted_bind _ _ ?_ fun _ => ih (fun x hx => hfull x (List.mem_cons_of_mem _ hx))
+    unfold Lazy.lazyBlockOf
+    split
+    · exact onlyContexted_panic _
+    · refine onlyContexted_bind _ _ (onlyContexted_poll _) fun _ => ?_
+      unfold Lazy.execMatchL
+      refine onlyContexted_bind _ _ (onlyContexted_modifyR _) fun _ => ?_
+      have hm := hfull m (List.mem_cons_self ..)
+      split
+      · next hnil => exact absurd hnil hm
+      · split
+        · exact onlyContexted_panic _
+        · exact C20_lazy_block_errors_contexted cfg fuel ef .top (by intro h; cases h) _ _
+
+theorem onlyContexted_evalQueue (cfg : Cfg) (ef : Nat) (sts : List LStmt) : OnlyContexted (Lazy.evalQueue cfg ef sts) := by
+  induction sts with
+  | nil => unfold Lazy.evalQueue; exact onlyContexted_pure ()
+  | cons st rest ih =>
+    unfold Lazy.evalQueue
+    refine onlyContexted_bind _ _ ?_ fun _ => ih
+    unfold Lazy.evalLStmt
+    refine onlyContexted_bind _ _ (onlyContexted_poll _) fun _ => ?_
+    cases st <;> exact onlyContexted_withContext _ _
+
+theorem onlyContexted_forceThunk (cfg : Cfg) (ef loc : Nat) : OnlyContexted (Lazy.forceThunk cfg ef loc) := by
+  rw [Lazy.forceThunk.eq_def]
+  refine onlyContexted_bind _ _ onlyContexted_getR fun r => ?_
+  split
+  · exact onlyContexted_panic _
+  · exact onlyContexted_withContext _ _
+
+theorem onlyContexted_forceAllThunks (cfg : Cfg) (ef : Nat) : ∀ (k i : Nat), OnlyContexted (Lazy.forceAllThunks cfg ef k i) := by
+  intro k
+  induction k with
+  | zero => intro i; unfold Lazy.forceAllThunks; exact onlyContexted_pure ()
+  | succ k ih =>
+    intro i
+    unfold Lazy.forceAllThunks
+    exact onlyContexted_bind _ _ (onlyContexted_forceThunk _ _ _) fun _ => ih _
+
+theorem onlyContexted_forcePairs (cfg : Cfg) (ef : Nat) (name : String) : ∀ (pairs : List (LVal × LVal × StmtCtx))
+    (acc : List (Nat × LVal)) (dbgs : List (Nat × StmtCtx)), OnlyContexted (Lazy.forcePairs cfg ef name pairs acc dbgs) := by
+  intro pairs
+  induction pairs with
+  | nil => intro acc dbgs; rw [Lazy.forcePairs.eq_def]; exact onlyContexted_pure _
+  | cons p rest ih =>
+    intro acc dbgs
+    obtain ⟨scope, value, dbg⟩ := p
+    rw [Lazy.forcePairs.eq_def]
+    simp only
+    refine onlyContexted_bind _ _ (onlyContexted_withContext _ _) fun node => ?_
+    split
+    · exact onlyContexted_withContext _ _
+    · exact ih _ _
+
+/-- forcing a cell that is not already being forced fails only with contexted errors -/
+theorem onlyContexted_forceCell (cfg : Cfg) (ef : Nat) (name : String) (cell : ScopedCell) (hc : cell ≠ .forcing) :
+    OnlyContexted (Lazy.forceCell cfg ef name cell) := by
+  rw [Lazy.forceCell.eq_def]
+  refine onlyContexted_bind _ _ (onlyContexted_modifyR _) fun _ => ?_
+  cases cell with
+  | unforced pairs => exact onlyContexted_forcePairs _ _ _ _ _ _
+  | forcing => exact absurd rfl hc
+  | forced map => exact onlyContexted_pure _
+
+/-- errors of a program started in a state where no scoped-variable cell is being forced -/
+def ContextedFromNF {α : Type} (m : Prog LSt α) : Prop :=
+  ∀ s s' e, LazyForcing.NF s → Prog.run m s = .fail (.err e) s' → Contexted e
+
+theorem ContextedFromNF.of {α : Type} {m : Prog LSt α} (h : OnlyContexted m) : ContextedFromNF m :=
+  fun s s' e _ hr => h s s' e hr
+
+theorem ContextedFromNF.bind {α β : Type} {m : Prog LSt α} {f : α → Prog LSt β} (hm : ContextedFromNF m)
+    (hg : LazyForcing.Grow LazyForcing.No m) (hf : ∀ a, ContextedFromNF (f a)) : ContextedFromNF (m >>= f) := by
+  intro s s' e hs h
+  rw [Prog.run_bind] at h
+  cases hr : Prog.run m s with
+  | ok a s1 => rw [hr] at h; exact hf a s1 s' e (hg.keepsNF hr hs) h
+  | fail e0 s1 =>
+    rw [hr] at h
+    cases h
+    exact hm s s' e hs hr
+
+/-- `LazyScopedVariables::evaluate_all`: started with no cell being forced, it fails only with contexted errors (the
+bare `RecursivelyDefinedScopedVariable` of `force` on a cell found in state `Forcing` is unreachable at top level) -/
+theorem contexted_forceAllCells (cfg : Cfg) (ef : Nat) (names : List String) : ContextedFromNF (Lazy.forceAllCells cfg ef names) := by
+  induction names with
+  | nil => unfold Lazy.forceAllCells; exact ContextedFromNF.of (onlyContexted_pure ())
+  | cons name rest ih =>
+    intro s s' e hs h
+    unfold Lazy.forceAllCells at h
+    rw [Prog.run_bind] at h
+    have hget : Prog.run (Prog.getR : Prog LSt LSt) s = .ok s.rest s := rfl
+    rw [hget] at h
+    simp only at h
+    cases hl : s.rest.cells.lookup name with
+    | none => rw [hl] at h; exact ih s s' e hs h
+    | some cell =>
+      rw [hl] at h
+      simp only at h
+      have hc : cell ≠ .forcing := by
+        intro hcf; subst hcf; exact hs name hl
+      rw [Prog.run_bind] at h
+      cases hfc : Prog.run (Lazy.forceCell cfg ef name cell) s with
+      | fail e0 s1 =>
+        rw [hfc] at h
+        cases h
+        exact onlyContexted_forceCell cfg ef name cell hc s s' e hfc
+      | ok map s1 =>
+        rw [hfc] at h
+        simp only at h
+        rw [Prog.run_bind] at h
+        have hset : Prog.run (Prog.modifyR fun s => Lazy.setCell s name (.forced map)) s1 =
+            .ok () { s1 with rest := Lazy.setCell s1.rest name (.forced map) } := rfl
+        rw [hset] at h
+        simp only at h
+        refine ih _ s' e ?_ h
+        -- no cell is being forced after the store: the mark of `name` was overwritten, the others were not there
+        intro n hn
+        unfold LazyForcing.Forcing at hn
+        rw [LazyForcing.lookup_setCell] at hn
+        by_cases hnn : n = name
+        · simp [hnn] at hn
+        · simp only [hnn, if_false] at hn
+          rcases (LazyForcing.grow_forceCell cfg ef name cell).h s map s1 hfc n hn with h4 | h4
+          · exact hs n h4
+          · exact hnn h4
+
+/-- **Whole lazy run.** Once the globals pre-check has passed, every error that lazy execution returns — while building
+the lazy graph, while evaluating the queued statements, or while forcing the thunks and scoped variables nothing asked
+for — is the cancellation error or carries the context of a statement, for matches that have their full-match node. -/
+theorem C20_lazy_errors_contexted (cfg : Cfg) (fuel ef : Nat) (stanzas : List Stanza) (merged : List QMatch)
+    (hfull : ∀ m ∈ merged, m.nodes fullMatchName ≠ []) :
+    ContextedFromNF (Lazy.execMergedL cfg fuel ef stanzas merged >>= fun _ => Lazy.evaluatePhase cfg ef) := by
+  refine ContextedFromNF.bind (.of (onlyContexted_execMergedL cfg fuel ef stanzas merged hfull)) (LazyForcing.grow_execMergedL ..) fun _ => ?_
+  unfold Lazy.evaluatePhase
+  refine ContextedFromNF.bind (.of onlyContexted_getR) LazyForcing.Grow.getR fun r => ?_
+  refine ContextedFromNF.bind (.of (onlyContexted_evalQueue _ _ _)) (LazyForcing.grow_evalQueue ..) fun _ => ?_
+  refine ContextedFromNF.bind (.of (onlyContexted_evalQueue _ _ _)) (LazyForcing.grow_evalQueue ..) fun _ => ?_
+  refine ContextedFromNF.bind (.of (onlyContexted_evalQueue _ _ _)) (LazyForcing.grow_evalQueue ..) fun _ => ?_
+  refine ContextedFromNF.bind (.of onlyContexted_getR) LazyForcing.Grow.getR fun r2 => ?_
+  refine ContextedFromNF.bind (.of (onlyContexted_forceAllThunks _ _ _ _)) (LazyForcing.grow_forceAllThunks ..) fun _ => ?_
+  refine ContextedFromNF.bind (.of onlyContexted_getR) LazyForcing.Grow.getR fun r3 => ?_
+  exact contexted_forceAllCells _ _ _
+
+/-- the same, for `Lazy.run` itself: the run starts with no scoped-variable cell at all -/
+theorem C20_lazy_run_errors_contexted (file : File) (tree : Tree) (oracle : Oracle) (globals : GlobalsM)
+    (la va ma : Option String) (cancelAt : Option Nat) (fuel ef : Nat) (merged : List QMatch) (g0 : CGraph) (gl : GlobalsM)
+    (hc : checkGlobals file.globals globals.nested = .ok gl)
+    (hfull : ∀ m ∈ merged, m.nodes fullMatchName ≠ []) (e : XErr)
+    (h : (Lazy.run file tree oracle globals la va ma cancelAt fuel ef merged g0).outcome = some (.err e)) : Contexted e := by
+  simp only [Lazy.run, hc] at h
+  let cfg : Cfg := { tree, oracle, globals := gl, inherited := file.inherited, shorthands := file.shorthands,
+                     locAttr := la, varAttr := va, matchAttr := ma }
+  let r0 : LSt := { locals := [[]], thunks := [], cells := [], edgeQ := [], attrQ := [], printQ := [], prevDbg := [] }
+  let s0 : Prog.MSt LSt := { graph := g0, rest := r0, ps := { polls := 0, cancelAt } }
+  have hnf : LazyForcing.NF s0 := by intro n hn; simp [LazyForcing.Forcing, s0, r0] at hn
+  cases hr : Prog.run (Lazy.execMergedL cfg fuel ef file.stanzas merged >>= fun _ => Lazy.evaluatePhase cfg ef) s0 with
+  | ok u s1 =>
+    have : (Prog.toResult (Prog.run (Lazy.execMergedL cfg fuel ef file.stanzas merged >>= fun _ => Lazy.evaluatePhase cfg ef) s0)).outcome = some (.err e) := h
+    rw [hr] at this
+    simp [Prog.toResult] at this
+  | fail f s1 =>
+    have : (Prog.toResult (Prog.run (Lazy.execMergedL cfg fuel ef file.stanzas merged >>= fun _ => Lazy.evaluatePhase cfg ef) s0)).outcome = some (.err e) := h
+    rw [hr] at this
+    simp only [Prog.toResult, Option.some.injEq] at this
+    subst this
+    exact C20_lazy_errors_contexted cfg fuel ef file.stanzas merged hfull s0 s1 e hnf hr
 
 end C20
